@@ -21,8 +21,16 @@
 //!   build <cpb> <mvs> <mts> <prefer_pure> I <n> { <coin> MA }* O <n> { OUT }* C ADDR DAT
 //!        -> ok <l0> <fee> <full_size> <nreq> <nout> { <coin> <size> <vsize> }* | { MA of every change output }*
 //!           | err:addout | err:change | toobig <full_size> | err:build
+//!   entry <cpb> <mvs> <mts> <prefer_pure> I <n> { <coin> MA }* O <n> { OUT }* C ADDR DAT SREF V <via> K <n> { <coin> MA }* P <pct> M <items> <auxlen> <late>
+//!        via 0 add_change_if_needed[_with_datum] | 1 add_inputs_from_and_change (nothing offered: the inputs are set) |
+//!            2 add_inputs_from_and_change_with_collateral_return (collateral inputs K, percentage P)
+//!        M: (late = 1: attached AFTER the balancing step) auxiliary data = metadata label 1 -> list of <items> 64-byte strings (0 0 = none); auxlen = its to_bytes().len()
+//!        then EVERY build entry point is called on the builder: full_size(), build(), build_tx(), build_tx_unsafe()
+//!        -> ok <fee> F=<n|err> B=<ok|err> T=<ok|err> U=<ok|err> L=<bytes of the returned transaction> <nreq> <nout> { <coin> <size> <vsize> }*
+//!              R <- | coin size vsize> TC <- | n> | { MA of every change output }*      (outputs: `none` when no entry point returned anything)
+//!           | err:addout | err:change | panic
 //!   txsize <mts> I <n> { <coin> MA }* O <n> { OUT }* F <fee>     (fee set by hand, no change; mainnet price)
-//!        -> ok <full_size> <bytes of build_tx_unsafe()> | toobig <full_size> | err:addout | err:size
+//!        -> ok|toobig <full_size> <bytes of the transaction build_tx / build_tx_unsafe returned, 0 if none> B=<ok|err> T=<ok|err> U=<ok|err> | err:addout | err:size
 //! Everything the size code does not look at (hash bytes, key bytes, asset-name bytes) is derived from the
 //! position of the item, so a case replays exactly.
 #![allow(deprecated)]
@@ -340,6 +348,89 @@ fn exec(toks: &[String]) -> String {
                 }
             }
         }
+        "entry" => {
+            let cpb = p.num(); let mvs = p.num() as u32; let mts = p.num() as u32; let pure_ = p.num() == 1;
+            p.expect("I");
+            let nin = p.us();
+            let ins: Vec<(u64, MaShape)> = (0..nin).map(|_| { let c = p.num(); let m = p.ma(); (c, m) }).collect();
+            p.expect("O");
+            let nout = p.us();
+            let outs: Vec<OutD> = (0..nout).map(|_| p.out()).collect();
+            p.expect("C");
+            let akind = p.next().to_string(); let alen = p.us(); let dat = p.dat(); let sref = p.sref();
+            p.expect("V"); let via = p.num();
+            p.expect("K"); let ncol = p.us();
+            let cols: Vec<(u64, MaShape)> = (0..ncol).map(|_| { let c = p.num(); let m = p.ma(); (c, m) }).collect();
+            p.expect("P"); let pct = p.num();
+            p.expect("M"); let items = p.us(); let auxlen = p.us(); let late = p.num() == 1;
+            let mut tb = TransactionBuilder::new(&cfg(cpb, mvs, mts, pure_));
+            let src = mk_addr("b", 57, 8).unwrap();
+            for (i, (c, m)) in ins.iter().enumerate() {
+                let v = match mk_value(*c, m) { Some(v) => v, None => return BAD.into() };
+                let mut h = vec![0x1Du8; 32]; h[0] = i as u8;
+                if tb.add_regular_input(&src, &TransactionInput::new(&TransactionHash::from_bytes(h).unwrap(), i as u32), &v).is_err() { return BAD.into(); }
+            }
+            if ncol > 0 {
+                let mut col = TxInputsBuilder::new();
+                for (i, (c, m)) in cols.iter().enumerate() {
+                    let v = match mk_value(*c, m) { Some(v) => v, None => return BAD.into() };
+                    if col.add_regular_input(&src, &TransactionInput::new(&TransactionHash::from_bytes(vec![0xC0; 32]).unwrap(), i as u32), &v).is_err() { return BAD.into(); }
+                }
+                tb.set_collateral(&col);
+            }
+            let set_meta = |tb: &mut TransactionBuilder| -> bool {
+                let mut l = MetadataList::new();
+                for _ in 0..items { l.add(&TransactionMetadatum::new_bytes(vec![0x33u8; 64]).unwrap()); }
+                let mut g = GeneralTransactionMetadata::new();
+                g.insert(&bn(1), &TransactionMetadatum::new_list(&l));
+                tb.set_metadata(&g);
+                match tb.get_auxiliary_data() { Some(a) => a.to_bytes().len() == auxlen, None => false }
+            };
+            if items > 0 && !late && !set_meta(&mut tb) { return BAD.into(); }
+            for (i, od) in outs.iter().enumerate() {
+                let o = match mk_output(od, 20 + i as u8) { Some(o) => o, None => return BAD.into() };
+                if tb.add_output(&o).is_err() { return "err:addout".into(); }
+            }
+            let caddr = match mk_addr(&akind, alen, 40) { Some(a) => a, None => return BAD.into() };
+            let d = match mk_datum(&dat) { Some(d) => d, None => return BAD.into() };
+            let sr = match mk_sref(&sref) { Some(s) => s, None => return BAD.into() };
+            let mut cc = ChangeConfig::new(&caddr);
+            if let Some(d) = &d { cc = cc.change_plutus_data(d); }
+            if let Some(s) = &sr { cc = cc.change_script_ref(s); }
+            let r = match via {
+                0 => { if sr.is_some() { return BAD.into(); }
+                       match &d { None => tb.add_change_if_needed(&caddr).map(|_| ()), Some(d) => tb.add_change_if_needed_with_datum(&caddr, d).map(|_| ()) } }
+                1 => tb.add_inputs_from_and_change(&TransactionUnspentOutputs::new(), CoinSelectionStrategyCIP2::LargestFirstMultiAsset, &cc).map(|_| ()),
+                _ => tb.add_inputs_from_and_change_with_collateral_return(&TransactionUnspentOutputs::new(), CoinSelectionStrategyCIP2::LargestFirstMultiAsset, &cc, &bn(pct)),
+            };
+            if let Err(e) = &r { if std::env::var("VERIF_DEBUG").is_ok() { eprintln!("entry: {}", e.to_string()); } return "err:change".into(); }
+            // metadata attached after the balancing: the transaction grows past what the fee and the size guard have seen
+            if items > 0 && late && !set_meta(&mut tb) { return BAD.into(); }
+            // every build entry point
+            let f = tb.full_size();
+            let b = tb.build();
+            let t = tb.build_tx();
+            let u = tb.build_tx_unsafe();
+            let fee = tb.get_fee_if_set().map(u64::from).unwrap_or(0);
+            let body: Option<TransactionBody> = match (&t, &u, &b) { (Ok(tx), _, _) => Some(tx.body()), (_, Ok(tx), _) => Some(tx.body()), (_, _, Ok(bd)) => Some(bd.clone()), _ => None };
+            let txlen = match (&t, &u) { (Ok(tx), _) => tx.to_bytes().len(), (_, Ok(tx)) => tx.to_bytes().len(), _ => 0 };
+            let okerr = |x: bool| if x { "ok" } else { "err" };
+            let mut s = format!("ok {} F={} B={} T={} U={} L={} {}", fee, f.as_ref().map(|x| x.to_string()).unwrap_or("err".into()),
+                                okerr(b.is_ok()), okerr(t.is_ok()), okerr(u.is_ok()), txlen, outs.len());
+            match body {
+                None => s.push_str(" none"),
+                Some(body) => {
+                    let os = body.outputs();
+                    s.push_str(&format!(" {}", os.len()));
+                    for i in 0..os.len() { let (c, sz, v) = sizes(&os.get(i)); s.push_str(&format!(" {} {} {}", c, sz, v)); }
+                    match body.collateral_return() { Some(r) => { let (c, sz, v) = sizes(&r); s.push_str(&format!(" R {} {} {}", c, sz, v)); } None => s.push_str(" R -") }
+                    match body.total_collateral() { Some(c) => s.push_str(&format!(" TC {}", u64::from(c))), None => s.push_str(" TC -") }
+                    s.push_str(" |");
+                    for i in outs.len()..os.len() { s.push_str(&format!(" {}", show_ma_shape(&shape_of(&os.get(i).amount().multiasset())))); }
+                }
+            }
+            s
+        }
         "txsize" => {
             let mts = p.num() as u32;
             p.expect("I");
@@ -363,10 +454,13 @@ fn exec(toks: &[String]) -> String {
             }
             tb.set_fee(&bn(fee));
             let full = match tb.full_size() { Ok(x) => x, Err(_) => return "err:size".into() };
-            match tb.build() {
-                Ok(_) => { let txlen = tb.build_tx_unsafe().map(|t| t.to_bytes().len()).unwrap_or(0); format!("ok {} {}", full, txlen) }
-                Err(_) => format!("toobig {}", full),
-            }
+            // every build entry point on its own (build_tx also validates fee and balance, which a hand-set fee rarely meets)
+            let b = tb.build().is_ok();
+            let t = tb.build_tx();
+            let u = tb.build_tx_unsafe();
+            let txlen = match (&t, &u) { (Ok(tx), _) => tx.to_bytes().len(), (_, Ok(tx)) => tx.to_bytes().len(), _ => 0 };
+            let okerr = |x: bool| if x { "ok" } else { "err" };
+            format!("{} {} {} B={} T={} U={}", if b { "ok" } else { "toobig" }, full, txlen, okerr(b), okerr(t.is_ok()), okerr(u.is_ok()))
         }
         _ => BAD.into(),
     }
@@ -580,6 +674,90 @@ fn gen(dir: &str) {
         let outs = if nout == 1 { " O 1 e 29 1000000 0 n 0 0 - 0 0".to_string() } else { " O 0".to_string() };
         let (ck, cl) = gen_addr(&mut r);
         emit(&mut out, format!("build 4310 5000 16384 {} I 1 {} {}{} C {} {} n 0 0", r.below(2), coin, ma, outs, ck, cl));
+    }
+    // --- every balancing entry point x every build entry point
+    let aux_len = |items: usize| -> usize {
+        if items == 0 { return 0; }
+        let mut l = MetadataList::new();
+        for _ in 0..items { l.add(&TransactionMetadatum::new_bytes(vec![0x33u8; 64]).unwrap()); }
+        let mut g = GeneralTransactionMetadata::new();
+        g.insert(&bn(1), &TransactionMetadatum::new_list(&l));
+        let mut a = AuxiliaryData::new(); a.set_metadata(&g); a.to_bytes().len()
+    };
+    let entry_line = |cpb: u64, mvs: u64, mts: u64, pure_: u64, ins: &Vec<(u64, MaShape)>, outs: &Vec<OutD>, ck: &str, cl: usize, dat: &Dat, sref: &Sref,
+                      via: u64, cols: &Vec<(u64, MaShape)>, pct: u64, items: usize, auxlen: usize| -> String {
+        let mut line = format!("entry {} {} {} {} I {}", cpb, mvs, mts, pure_, ins.len());
+        for (c, m) in ins { line.push_str(&format!(" {} {}", c, show_ma_shape(m))); }
+        line.push_str(&format!(" O {}", outs.len()));
+        for o in outs { line.push_str(&format!(" {}", show_out(o))); }
+        line.push_str(&format!(" C {} {} {} {} {} {} {} {} V {} K {}", ck, cl, dat.kind, dat.param, dat.len, sref.kind, sref.param, sref.len, via, cols.len()));
+        for (c, m) in cols { line.push_str(&format!(" {} {}", c, show_ma_shape(m))); }
+        line.push_str(&format!(" P {} M {} {} 0", pct, items, auxlen));
+        line
+    };
+    let run_line = |line: &str| -> String { let toks: Vec<String> = line.split_whitespace().map(|s| s.to_string()).collect(); guarded(move || exec(&toks)) };
+    // (a) random mixtures
+    for _ in 0..(60 * scale) {
+        let cpb = *r.pick(&[4310u64, 4310, 4310, 1000, 34482]);
+        let via = r.below(3);
+        let nin = r.range(1, 2) as usize;
+        let ins: Vec<(u64, MaShape)> = (0..nin).map(|i| (r.range(3_000_000, 60_000_000), if i == 0 && r.chance(1, 2) { vec![vec![(r.range(0, 32) as usize, r.range(1, 99))]] } else { vec![] })).collect();
+        let nout = r.below(3) as usize;
+        let outs: Vec<OutD> = (0..nout).map(|_| { let (akind, alen) = gen_addr(&mut r);
+            let mut od = OutD { akind, alen, coin: 0, ma: vec![], dat: gen_dat(&mut r, false), sref: plain_sref() };
+            od.coin = min_ada_of(&od, cpb).unwrap_or(1_000_000) + r.below(2) * r.below(500_000); od }).collect();
+        let (ck, cl) = gen_addr(&mut r);
+        let dat = if r.chance(1, 3) { gen_dat(&mut r, false) } else { plain_dat() };
+        let sref = if via != 0 && r.chance(1, 3) { gen_sref(&mut r, false) } else { plain_sref() };
+        let cols: Vec<(u64, MaShape)> = if via == 2 { (0..r.range(1, 2)).map(|i| (r.range(100_000, 3_000_000), if i == 0 && r.chance(1, 4) { vec![vec![(4usize, 7u64)]] } else { vec![] })).collect() } else { vec![] };
+        let items = if r.chance(1, 4) { r.range(1, 6) as usize } else { 0 };
+        let mts = if r.chance(1, 4) { r.range(300, 900) } else { 16384 };
+        emit(&mut out, entry_line(cpb, 5000, mts, r.below(2), &ins, &outs, &ck, cl, &dat, &sref, via, &cols, *r.pick(&[150u64, 100, 1, 1000]), items, aux_len(items)));
+    }
+    // (b) the collateral remainder just below / at / above the minimum ADA of the return output (and 0, and short by 1)
+    for k in 0..(6 * scale) {
+        let cpb = 4310u64; let pct = *r.pick(&[150u64, 100, 200]);
+        let ins = vec![(r.range(5_000_000, 40_000_000), vec![])];
+        let (ck, cl) = match k % 3 { 0 => ("b".to_string(), 57), 1 => ("e".to_string(), 29), _ => gen_addr(&mut r) };
+        let with_asset = k % 4 == 3;
+        let cma: MaShape = if with_asset { vec![vec![(5usize, 3u64)]] } else { vec![] };
+        // learn the fee of this scenario with ample collateral, then place the collateral around required + minimum
+        let probe = entry_line(cpb, 5000, 16384, 0, &ins, &vec![], &ck, cl, &plain_dat(), &plain_sref(), 2, &vec![(20_000_000, cma.clone())], pct, 0, 0);
+        let res = run_line(&probe);
+        let fee: u64 = res.split_whitespace().nth(1).and_then(|x| x.parse().ok()).unwrap_or(170_000);
+        let required = fee * pct / 100 + 1;
+        let ret = OutD { akind: ck.clone(), alen: cl, coin: 0, ma: cma.clone(), dat: plain_dat(), sref: plain_sref() };
+        let min_ret = min_ada_of(&ret, cpb).unwrap_or(1_000_000);
+        for d in [-(min_ret as i64) - 1, -(min_ret as i64), -(min_ret as i64) + 1, -(min_ret as i64) / 2, -1000, -1, 0, 1, 1000] {
+            let coin = (required as i64 + min_ret as i64 + d) as u64;
+            emit(&mut out, entry_line(cpb, 5000, 16384, 0, &ins, &vec![], &ck, cl, &plain_dat(), &plain_sref(), 2, &vec![(coin, cma.clone())], pct, 0, 0));
+        }
+    }
+    // (c) transactions just below / at / above max_tx_size, through many outputs or large metadata, for each balancing entry point
+    for k in 0..(8 * scale) {
+        let cpb = 4310u64; let via = k % 3;
+        let many = k % 2 == 0;
+        let nout = if many { r.range(8, 30) as usize } else { r.below(2) as usize };
+        let items = if many { 0 } else { r.range(5, 60) as usize };
+        let outs: Vec<OutD> = (0..nout).map(|_| { let mut od = OutD { akind: "e".into(), alen: 29, coin: 0, ma: vec![], dat: plain_dat(), sref: plain_sref() };
+            od.coin = min_ada_of(&od, cpb).unwrap_or(1_000_000); od }).collect();
+        let ins = vec![(60_000_000 + 1_000_000 * nout as u64, vec![])];
+        let cols = if via == 2 { vec![(5_000_000u64, vec![])] } else { vec![] };
+        let al = aux_len(items);
+        let probe = entry_line(cpb, 5000, 1_000_000, 0, &ins, &outs, "b", 57, &plain_dat(), &plain_sref(), via, &cols, 150, items, al);
+        let res = run_line(&probe);
+        let full: u64 = res.split_whitespace().nth(2).and_then(|x| x.strip_prefix("F=")).and_then(|x| x.parse().ok()).unwrap_or(2000);
+        for mts in [full - 1, full, full + 1, full.saturating_sub(r.range(2, 40))] {
+            emit(&mut out, entry_line(cpb, 5000, mts, 0, &ins, &outs, "b", 57, &plain_dat(), &plain_sref(), via, &cols, 150, items, al));
+        }
+        // the same transaction balanced WITHOUT the metadata, which is attached afterwards: the balancing succeeds under a
+        // limit the final transaction exceeds, so only the build entry points stand between it and the caller
+        if items > 0 {
+            for mts in [full - 1, full, full + 1, full - (al as u64) / 2] {
+                let l = entry_line(cpb, 5000, mts, 0, &ins, &outs, "b", 57, &plain_dat(), &plain_sref(), via, &cols, 150, items, al);
+                emit(&mut out, format!("{}1", &l[..l.len() - 1]));
+            }
+        }
     }
     // --- build(): max_tx_size guard, limit = full size - 1 / = / + 1 and random
     for _ in 0..(60 * scale) {
